@@ -613,7 +613,8 @@ theorem step_corr (hs : SimpSound s) (hI : I.Std) (hR : R I env code p st f) (hs
         split
         · rename_i sz slot ht
           split
-          · exact corr_load hs hR hsat hl hW hop hld hst ht
+          · rename_i hlt
+            exact corr_load hs hR hsat hl hW hop hld hst ht hlt
           · exact Corr.stuck rfl
         · exact Corr.stuck rfl
     rw [if_neg hld]
@@ -628,9 +629,10 @@ theorem step_corr (hs : SimpSound s) (hI : I.Std) (hR : R I env code p st f) (hs
           split
           · rename_i sz slot ht
             split
-            · split
+            · rename_i hlt
+              split
               · rename_i szv r hv
-                exact corr_store hs hR hsat hl hop hso hst hstatic ht hv
+                exact corr_store hs hR hsat hl hop hso hst hstatic ht hlt hv
               · exact Corr.stuck rfl
             · exact Corr.stuck rfl
           · exact Corr.stuck rfl
